@@ -1,4 +1,4 @@
-use anyhow::{Result, bail, ensure};
+use anyhow::{Result, anyhow, bail, ensure};
 use hdr10plus::metadata::{PeakBrightnessSource, VariablePeakBrightness};
 use hdr10plus::metadata_json::MetadataJsonRoot;
 use std::fs::File;
@@ -190,12 +190,14 @@ fn parse_hdr10plus_for_l1<P: AsRef<Path>>(
     let first_frame_index = scene_first_frames
         .first()
         .cloned()
-        .expect("Missing SceneFirstFrameIndex array");
+        .ok_or_else(|| anyhow!("HDR10+ JSON: missing SceneFirstFrameIndex array"))?;
 
     // Offset indices according to first index, since they should start at 0
-    scene_first_frames
-        .iter_mut()
-        .for_each(|i| *i -= first_frame_index);
+    for i in scene_first_frames.iter_mut() {
+        *i = i.checked_sub(first_frame_index).ok_or_else(|| {
+            anyhow!("HDR10+ JSON: SceneFirstFrameIndex entry below the first scene's index")
+        })?;
+    }
 
     let scene_frame_lengths = metadata_root.scene_info_summary.scene_frame_numbers;
 
@@ -209,7 +211,9 @@ fn parse_hdr10plus_for_l1<P: AsRef<Path>>(
 
     for (current_shot_id, (frame_no, frame_meta)) in first_frames.enumerate() {
         let avg_nits = frame_meta.luminance_parameters.average_rgb as f64 / 10.0;
-        let max_nits = frame_meta.peak_brightness_nits(peak_source).unwrap();
+        let max_nits = frame_meta
+            .peak_brightness_nits(peak_source)
+            .ok_or_else(|| anyhow!("HDR10+ JSON: no peak brightness value for frame {frame_no}"))?;
 
         let min_pq = 0;
         let max_pq = (nits_to_pq(max_nits.round()) * 4095.0).round() as u16;
@@ -217,7 +221,9 @@ fn parse_hdr10plus_for_l1<P: AsRef<Path>>(
 
         let mut shot = VideoShot {
             start: frame_no,
-            duration: scene_frame_lengths[current_shot_id],
+            duration: *scene_frame_lengths.get(current_shot_id).ok_or_else(|| {
+                anyhow!("HDR10+ JSON: missing SceneFrameNumbers entry for scene {current_shot_id}")
+            })?,
             metadata_blocks: vec![ExtMetadataBlock::Level1(
                 ExtMetadataBlockLevel1::from_stats_cm_version(
                     min_pq,
